@@ -113,6 +113,13 @@ def neutron_constants():
     out["ABSORPTION_WAVELENGTH"] = Fraction(translate.number_text(NSF, "ABSORPTION_WAVELENGTH"))
     for n in ("ENERGY_FACTOR", "VELOCITY_FACTOR", "_4PI_100"):
         out[n] = expr_to_lean(assigned(tree, n), text, imported)
+    return out
+
+
+def water_constants():
+    """solvent literals of nsf._D2O_slds and of fasta.py: {'nsf_water': {'H':…, 'D':…}, 'fasta_water': …}"""
+    tree = module_ast(NSF)
+    out = {}
     out["nsf_water"] = _water_literals(_function(tree, "_D2O_slds"), "nsf._D2O_slds")
     ftree = module_ast(FASTA)
     fw = {}
@@ -134,8 +141,8 @@ def neutron_constants():
 def gen_NeutronConsts() -> str:
     c = neutron_constants()
     L = ["import PtVerif.Num", "import PtVerif.Generated.Constants", "", "namespace PtGen", "",
-         "/-! nsf.py / fasta.py – module-level constants of the neutron calculations.  The factors",
-         "    are the *defining expressions* of the source, operator by operator. -/",
+         "/-! nsf.py – module-level constants of the neutron calculations.  The factors are the",
+         "    *defining expressions* of the source, operator by operator. -/",
          "section",
          "variable {α : Type} [Add α] [Sub α] [Mul α] [Div α] [NatCast α] [Transc α]", ""]
     L.append("/-- nsf.py `ABSORPTION_WAVELENGTH = %s` -/" % translate.number_text(NSF, "ABSORPTION_WAVELENGTH"))
@@ -145,6 +152,18 @@ def gen_NeutronConsts() -> str:
         seg = ast.get_source_segment(src(NSF), assigned(module_ast(NSF), n))
         L.append("/-- nsf.py `%s = %s` -/" % (n, " ".join(seg.split())))
         L.append("def %s : α := %s" % (lean, c[n]))
+    L += ["", "end", "", "end PtGen", ""]
+    return "\n".join(L)
+
+
+@translate.register("NeutronWater")
+def gen_NeutronWater() -> str:
+    c = water_constants()
+    L = ["namespace PtGen", "",
+         "/-! the solvent literals `\"H2O@<d>n\"` / `\"D2O@<d>n\"` inside `nsf._D2O_slds` and at module",
+         "    level of fasta.py (natural density of the solvent) – used by C16 only. -/",
+         "section",
+         "variable {α : Type} [Div α] [NatCast α]", ""]
     for mod, key in (("nsf", "nsf_water"), ("fasta", "fasta_water")):
         for iso in ("H", "D"):
             L.append("/-- natural density in the literal `%s2O@…n` of %s -/" % (iso, mod))
